@@ -409,6 +409,20 @@ func TestSizeLimitWithSizeEstimates(t *testing.T) {
 			if err != nil || !bytes.Equal(got, val) {
 				t.Fatalf("value of %d bytes under %q: lookup returns %d bytes (%v)", len(val), key, len(got), err)
 			}
+			if i < 2 {
+				// sixteen longer keys below it: the big value now sits on a complete branch
+				for n := 0; n < 16; n++ {
+					if _, err := mpt.Insert(util.Path(fmt.Sprintf("%s%x7", key, n)), mptkit.Val([]byte{byte(n), 2})); err != nil {
+						t.Fatalf("key below the big value: %v", err)
+					}
+				}
+				for name, tr := range map[string]*util.MerklePatriciaTrie{"the writing trie": mpt, "a trie opened on the root": mptkit.NewTrie(st.DB, int64(seed%3), mpt.GetRoot())} {
+					got, err := tr.GetNodeValueRaw(util.Path(key))
+					if err != nil || !bytes.Equal(got, val) {
+						t.Fatalf("value of %d bytes under %q with sixteen keys below it: lookup through %s returns %d bytes (%v)", len(val), key, name, len(got), err)
+					}
+				}
+			}
 			if _, err := mpt.Insert(util.Path(key), mptkit.Val([]byte{1})); err != nil {
 				t.Fatalf("overwrite of the big value: %v", err)
 			}
